@@ -27,7 +27,8 @@ for sid in sorted(res):
     others = sorted(q for q, v in res[sid].items() if q != prop and v["exit"] == 1)
     n += 1; own += bool(ownr); anyd += bool(ownr or others)
     summ = (meta.get("summary") or "")[:170].replace("|", "/").replace("\n", " ")
-    out.append(f"| {sid} | {meta.get('round', 1)} | {summ} | {', '.join(ownr) or '**missed**'} | {', '.join(others)} |")
+    missed = "neutralised by a later fix (property holds again)" if meta.get("neutralised_at_head") else "**missed**"
+    out.append(f"| {sid} | {meta.get('round', 1)} | {summ} | {', '.join(ownr) or missed} | {', '.join(others)} |")
 out.append("")
 out.append(f"Totals: {n} seeded changes, {own} reported by the targeted property's check, {anyd} by at least one check.\n")
 text = "\n".join(out)
